@@ -11,6 +11,7 @@ import (
 	"os"
 	"path/filepath"
 	"sort"
+	"strings"
 	"syscall"
 
 	"github.com/ipfs/go-cid"
@@ -368,6 +369,15 @@ func scnFsImport(rep *Report, rng *Rng, tier string, outdir string) {
 	// symlinks whose target text is not a cleaned path
 	add(FsInput{Root: &FsNode{Kind: "dir", Name: "r", Children: []*FsNode{{Kind: "file", Name: "plain.txt", Size: 3}, {Kind: "dir", Name: "sub"},
 		{Kind: "symlink", Name: "l1", Target: "./plain.txt"}, {Kind: "symlink", Name: "l2", Target: "sub/"}, {Kind: "symlink", Name: "l3", Target: "sub//x"}, {Kind: "symlink", Name: "l4", Target: "a/../plain.txt"}}}})
+	// long link targets: the symlink block's length prefixes grow past one byte at 124 bytes of target (and again at 16 KiB)
+	{
+		var kids []*FsNode
+		for _, n := range []int{119, 120, 123, 124, 127, 128, 200, 1000, 4000} {
+			kids = append(kids, &FsNode{Kind: "symlink", Name: fmt.Sprintf("long-%d", n), Target: strings.Repeat("t/", n/2) + strings.Repeat("x", n%2)})
+		}
+		add(FsInput{Root: &FsNode{Kind: "dir", Name: "r", Children: kids}})
+		add(FsInput{Root: &FsNode{Kind: "symlink", Name: "alone", Target: strings.Repeat("u", 300)}})
+	}
 	// fifos at several depths
 	add(FsInput{Root: &FsNode{Kind: "fifo", Name: "pipe"}})
 	add(FsInput{Root: &FsNode{Kind: "dir", Name: "r", Children: []*FsNode{{Kind: "file", Name: "a", Size: 5}, {Kind: "dir", Name: "d", Children: []*FsNode{{Kind: "fifo", Name: "p"}}}}}})
